@@ -26,11 +26,49 @@ def _writers(case):
     return ws
 
 
-def compile_layout(case, flavor="tt", writer_objs=None):
+def _two_master_family(case):
+    """the case's UFO as the default master plus a copy with wider advances: the layout data of both is the same, so the
+    variable font (and each interpolatable master) must carry exactly the layout of the static font"""
+    import copy
+
+    from . import dsbuild
+
+    u0 = copy.deepcopy(case["ufo"])
+    u1 = copy.deepcopy(case["ufo"])
+    for g in u1["glyphs"].values():
+        if g["w"]:
+            g["w"] += 20 * 1024
+    u1["info"] = dict(u1.get("info") or {}, styleName="Wide")
+    kw = dict(case.get("kwargs") or {})
+    skip = kw.pop("skipExportGlyphs", None)
+    if skip is None:
+        skip = (u0.get("lib") or {}).get("public.skipExportGlyphs")
+    fam = {"axes": [{"name": "Weight", "tag": "wght", "min": 0, "default": 0, "max": 8}],
+           "masters": [{"loc": {"Weight": 0}, "ufo": u0, "name": "M0"}, {"loc": {"Weight": 8}, "ufo": u1, "name": "M1"}],
+           "lib": {"public.skipExportGlyphs": list(skip)} if skip else {}}
+    return dsbuild.build_designspace(fam, case.get("lib", "ufoLib2")), kw
+
+
+def compile_layout(case, flavor="tt", writer_objs=None, via="static"):
     """`writer_objs`: already initialised writer instances to use instead of building the list the case describes
-    (a caller may hand the same instances to several compiles)."""
+    (a caller may hand the same instances to several compiles).
+    `via`: "static" | "vf" (variable features) | "vf-merge" (per-master layout merged by varLib) | "interp" (master 0 of
+    compileInterpolatable*FromDS) -- the designspace paths need default writers."""
     import ufo2ft
 
+    if via != "static":
+        ds, kw = _two_master_family(case)
+        kw.setdefault("useProductionNames", False)
+        dbg = io.StringIO()
+        kw["debugFeatureFile"] = dbg
+        if via == "interp":
+            fn = ufo2ft.compileInterpolatableTTFsFromDS if flavor == "tt" else ufo2ft.compileInterpolatableOTFsFromDS
+            otf = fn(ds, **kw).sources[0].font
+        else:
+            fn = ufo2ft.compileVariableTTF if flavor == "tt" else ufo2ft.compileVariableCFF2
+            otf = fn(ds, variableFeatures=(via == "vf"), **kw)
+        data, f2 = project.save_reload(otf)
+        return f2, dbg.getvalue(), data
     font = absfont.build_font(case["ufo"], case.get("lib", "ufoLib2"))
     fn = ufo2ft.compileTTF if flavor == "tt" else ufo2ft.compileOTF
     kw = dict(case.get("kwargs") or {})
